@@ -45,7 +45,7 @@ def main():
                 if tests:
                     rct, outt = run([PY, "-m", "pytest", "-q", "-p", "no:cacheprovider", "-n", "8", "tests"], cwd=scratch, env={"PYTHONPATH": scratch})
                     meta["suite"] = outt.strip().splitlines()[-1] if outt.strip() else ""
-                rcc, outc = run([PY, "-m", "sa", "all"], cwd=VERIF, env={"SA_REPO": scratch, "SA_EVIDENCE_DIR": "/tmp/rf_evidence", "SA_REPLAY_DIR": "/tmp/rf_replay"})
+                rcc, outc = run([PY, "-m", "sa", "all"], cwd=VERIF, env={"SA_REPO": scratch, "SA_EVIDENCE_DIR": f"/tmp/rf_evidence_{tag}", "SA_REPLAY_DIR": f"/tmp/rf_replay_{tag}"})
                 viol = sorted({ln.strip()[:400] for ln in outc.splitlines() if ln.startswith("  claripy/") and ": [" in ln})
                 errs = sorted({ln.strip()[:400] for ln in outc.splitlines() if ln.startswith("ANALYSIS-ERROR")})
                 meta["violations"] = viol
